@@ -11,8 +11,9 @@
     space); [bpart] = a text part or a number inside a brace group. *)
 From Coq Require Import List ZArith NArith Bool String.
 From RG Require Import Base.Str Base.Dec Base.Num Model.Recipe Model.Compiler Model.Peg Model.Parser Model.Printer
-  Gen.GenGrammar Proofs.ParserLex.
+  Gen.GenGrammar Proofs.ParserLex Proofs.ParserTree Proofs.ParserStmt Proofs.ParserFuel Proofs.ParserEquiv.
 Import ListNotations.
+Open Scope string_scope.
 Open Scope list_scope.
 Open Scope N_scope.
 
@@ -97,3 +98,101 @@ Proof.
   exact (conj hsp_insignificant (conj sp_insignificant (conj sc_eol_break sc_eol_end))).
 Qed.
 Print Assumptions C06_ws_insignificant.
+
+(** ** The round trip for the quoted family
+
+    Full statement (kept visible; NOT proved - the naked-string family is covered by the correspondence
+    suites only, because a naked string's extent depends on what follows it):
+
+      forall (a : list astmt) (s : spelling), valid a -> permitted a s -> parse (print a s) = POk a
+
+    for ALL permitted spellings, including naked strings, every amount form (known units in any letter
+    case, explicit quantities, prepositions, remainder words).
+
+    Proved part ([_partial]): a spelling is an annotated syntax tree [precipe] (Model/Printer.v):
+    [print_recipe r] is its text and [value_recipe r] the abstract syntax it spells, WITH the offsets at
+    which the printer puts the output names, the reference names and the amounts.  The family covers
+      - every name part quoted (either quote, every character raw / escaped) or braced (text and number
+        parts in every layout), segments separated by arbitrary horizontal space (which is part of the name);
+      - amounts: none; unit-less quantity [2 'eggs']; [n *]; [n %] (every number layout);
+      - steps with any number of inputs, nesting to any depth, arbitrary whitespace (line breaks included)
+        around parentheses and commas, optional trailing comma;
+      - left-to-right shorthand at statement level and inside parentheses;
+      - outputs lists, [=] and [:=], arbitrary horizontal space around them;
+      - any leading whitespace, trailing spaces, LF / CR line ends, blank lines, indentation, optional
+        final line break.
+    [recipe_ok r] are the side conditions under which the spelling is permitted (all decidable). *)
+Theorem C06_roundtrip_quoted_partial : forall r : precipe,
+  recipe_ok r = true -> parse (print_recipe r) = POk (value_recipe r).
+Proof. exact Proofs.ParserFuel.recipe_roundtrip. Qed.
+Print Assumptions C06_roundtrip_quoted_partial.
+
+(** A concrete member of the family:
+<<
+  'sauce', {x 1/2 y}"z" := "boil\n" (2'tomatoes' ,{a}
+     , 50 % {1} ,)<LF>('fry'('sauce')) , 'serve'
+>>  *)
+Definition C06_example_recipe : precipe :=
+  let q (x : string) := SQ 39 [] (s x) in
+  let nm (x : string) := mkName (q x) [] in
+  mkPR [32]
+    [ mkPS (Some (nm "sauce", [([], [32], mkName (SB [BStr (s "x ") []; BNum (NTFrac 0 1 [] 0 2); BStr (s " y") []])
+                                                    [([], SQ 34 [] (s "z"))])], [32], true, [32]))
+           (XStep (mkName (SQ 34 [MRaw; MRaw; MRaw; MRaw; MEscLetter] (s "boil" ++ [10])) []) [32] []
+              (XRef (Some (AmNum (NTInt 0 2), [])) (nm "tomatoes"))
+              [([32], [], XRef None (mkName (SB [BStr (s "a") []]) []));
+               ([10; 32; 32], [32], XRef (Some (AmPercent (NTInt 0 50) [32], [32])) (mkName (SB [BNum (NTInt 0 1)]) []))]
+              (Some [32]) [])
+           [] ([], Some (10, []));
+      mkPS None (XParen [] (XStep (nm "fry") [] [] (XRef None (nm "sauce")) [] None []) [] [])
+           [([32], [32], nm "serve")] ([], None) ].
+
+Example C06_roundtrip_quoted_ex :
+  recipe_ok C06_example_recipe = true /\
+  parse (print_recipe C06_example_recipe) = POk (value_recipe C06_example_recipe) /\
+  List.length (value_recipe C06_example_recipe) = 2%nat.
+Proof. vm_compute. repeat split; reflexivity. Qed.
+
+(** ** Shorthand vs nested steps: [e, f, g] and [g(f(e))] parse to the same abstract syntax (up to the
+    offsets, which necessarily differ); any expression [e], any actions, any whitespace. *)
+Theorem C06_shorthand_equiv : forall e w1 w2 f w3 w4 g wf s0 s1 wg s2 s3 eol lead,
+  recipe_ok (mkPR lead [short_form e w1 w2 f w3 w4 g eol]) = true ->
+  recipe_ok (mkPR lead [nested_form e f g wf s0 s1 wg s2 s3 eol]) = true ->
+  exists a1 a2,
+    parse (print_recipe (mkPR lead [short_form e w1 w2 f w3 w4 g eol])) = POk a1 /\
+    parse (print_recipe (mkPR lead [nested_form e f g wf s0 s1 wg s2 s3 eol])) = POk a2 /\
+    strip_offsets a1 = strip_offsets a2.
+Proof. exact Proofs.ParserEquiv.shorthand_equiv. Qed.
+Print Assumptions C06_shorthand_equiv.
+
+Example C06_shorthand_equiv_ex :
+  let e := XRef (Some (AmNum (NTInt 0 1), [32])) (mkName (SQ 39 [] (s "a")) []) in
+  let f := mkName (SQ 39 [] (s "f")) [] in let g := mkName (SQ 34 [] (s "g")) [] in
+  recipe_ok (mkPR [] [short_form e [] [32] f [32] [] g ([], None)]) = true /\
+  recipe_ok (mkPR [] [nested_form e f g [] [] [] [32] [10] [] ([], None)]) = true /\
+  print_recipe (mkPR [] [short_form e [] [32] f [32] [] g ([], None)]) = s "1 'a', 'f' ,""g""" /\
+  print_recipe (mkPR [] [nested_form e f g [] [] [] [32] [10] [] ([], None)]) = s """g"" (" ++ [10] ++ s "'f'(1 'a'))".
+Proof. vm_compute. repeat split; reflexivity. Qed.
+
+(** ** A trailing comma before the closing parenthesis changes nothing: the step parses to the very same
+    abstract syntax (offsets included) and the same input remains. *)
+Theorem C06_trailing_comma : forall nm w s0 first more st s1 (k : str) fuel o b,
+  expr_ok (XStep nm w s0 first more (Some st) s1) = true -> expr_followb k = true ->
+  (cost (XStep nm w s0 first more None s1) <= fuel)%nat ->
+  exists v k1 k2,
+    p_expr fuel (mkSt (print_expr (XStep nm w s0 first more (Some st) s1) ++ k) o b) = Got v k1 /\
+    p_expr fuel (mkSt (print_expr (XStep nm w s0 first more None s1) ++ k) o b) = Got v k2 /\
+    rest k1 = k /\ rest k2 = k.
+Proof. exact Proofs.ParserEquiv.trailing_comma. Qed.
+Print Assumptions C06_trailing_comma.
+
+(** ** Two permitted spellings (of the proved family) of the same description parse to the same
+    abstract syntax up to offsets - hence compile identically ([Model/Compiler.v] never looks at an offset
+    except to report an error position). *)
+Theorem C06_same_description : forall r1 r2,
+  recipe_ok r1 = true -> recipe_ok r2 = true ->
+  strip_offsets (value_recipe r1) = strip_offsets (value_recipe r2) ->
+  exists a1 a2, parse (print_recipe r1) = POk a1 /\ parse (print_recipe r2) = POk a2
+                /\ strip_offsets a1 = strip_offsets a2.
+Proof. exact Proofs.ParserEquiv.same_description. Qed.
+Print Assumptions C06_same_description.
